@@ -418,7 +418,10 @@ fn one_run(cli: &Path, base: &Path, case_id: &str, case: &Value, names: &[AName]
     if std::env::var("VERIF_KEEP").is_err() {
         let _ = std::fs::remove_dir_all(&w);
     }
-    (vec![reset, ev], r.exit)
+    // did the extraction loop run to its end?  (exit 1 with the final "Failed to extract N file(s)" message = every entry was
+    // tried and some were refused / unreadable; any other failure may have stopped before later entries)
+    let completed = r.exit == 0 || r.stderr.contains("Failed to extract");
+    (vec![reset, ev], if completed { 0 } else { r.exit })
 }
 
 fn main() {
@@ -442,7 +445,7 @@ fn main() {
         let o = Opts { preserve: gb(c, "preserve"), chain: gb(c, "chain"), explicit: gb(c, "explicit") };
         let names = parse_names(c);
         let (mut evs, exit) = one_run(&cli, &scratch.path, &id, c, &names, &o, seed);
-        // a failed multi-name run may have stopped before trying every name: give each its own run
+        // a multi-name run that stopped early may not have tried every name: give each its own run
         if exit != 0 && names.len() > 1 {
             for (k, n) in names.iter().enumerate() {
                 let (e2, _) = one_run(&cli, &scratch.path, &format!("{id}.{k}"), c, std::slice::from_ref(n), &o, seed);
